@@ -48,6 +48,7 @@ type MuxPair struct {
 	AddrB    *net.UDPAddr
 	stopOnce sync.Once
 	downOnce sync.Once
+	Stack    bool   // the muxers run on a real transport session (frames are not visible on the wire)
 	after    func() // tears down what lies under the muxers (stack pairs)
 }
 
@@ -79,7 +80,7 @@ func NewStackPair(r *Run, n *Net, prop string) *MuxPair {
 		r.Violate(prop+"/nofault/stack-accept-failed", "no handle")
 		return nil
 	}
-	p := &MuxPair{N: n, AddrA: srv.Addr, AddrB: tc.Addr, EA: srv.EP, EB: tc.EP}
+	p := &MuxPair{N: n, AddrA: srv.Addr, AddrB: tc.Addr, EA: srv.EP, EB: tc.EP, Stack: true}
 	p.A = tubes.Server(h, &tubes.Config{Log: NewLogEntry()})
 	p.B = tubes.Client(tc.C, &tubes.Config{Log: NewLogEntry()})
 	p.after = func() {
